@@ -346,6 +346,14 @@ func (ctrler *RigoApp) deliverTxSync(req abcitypes.RequestDeliverTx) abcitypes.R
 		xerr = xerrors.ErrDeliverTx.Wrap(xerr)
 		ctrler.logger.Error("deliverTxSync", "error", xerr)
 
+		if txctx == nil {
+			// the tx can not be decoded or its sender is not found: there is no tx context to take events from.
+			return abcitypes.ResponseDeliverTx{
+				Code: xerr.Code(),
+				Log:  xerr.Error(),
+			}
+		}
+
 		if txctx.Tx != nil {
 			// add event
 			txctx.Events = append(txctx.Events, abcitypes.Event{
